@@ -103,6 +103,25 @@ def pow2_instances(exprs, down=2, up=1, max_terms=60):
         ldone.add(str(v))
         for cst in range(0, 41):
             facts.append(z3.Implies(v == 2 ** cst, ilog2(v) == cst))
+    # integer division by powers of two (shifts): (a div 2^t) div 2 == a div 2^(t+1)   [lemma nested_div_by_two]
+    divs, seen3, stack = [], set(), list(exprs)
+    while stack:
+        t = stack.pop()
+        if t.get_id() in seen3:
+            continue
+        seen3.add(t.get_id())
+        if z3.is_quantifier(t):
+            stack.append(t.body())
+        elif z3.is_app(t):
+            if t.decl().kind() == z3.Z3_OP_IDIV and z3.is_app(t.arg(1)) and t.arg(1).decl().name() == "pow2" and not _has_var(t):
+                divs.append((t.arg(0), t.arg(1).arg(0)))
+            stack.extend(t.children())
+    for i, (a1, t1) in enumerate(divs):
+        facts.append(z3.Implies(z3.And(t1 >= 0, a1 >= 0), a1 / pow2(t1) >= 0))
+        for (a2, t2) in divs[i + 1:]:
+            if a1.eq(a2):
+                facts.append(z3.Implies(z3.And(t2 == t1 + 1, t1 >= 0), (a1 / pow2(t1)) / 2 == a2 / pow2(t2)))
+                facts.append(z3.Implies(z3.And(t1 == t2 + 1, t2 >= 0), (a2 / pow2(t2)) / 2 == a1 / pow2(t1)))
     base = [t for t, lvl in args.values() if lvl == 0]
     for i, s_ in enumerate(base):
         for t in base[i + 1:]:
